@@ -314,22 +314,34 @@ func rulesHold(items [][]byte, mode string, mn, mx int, fl string) bool {
 	if strings.HasSuffix(mode, "s") && lex {
 		sort.SliceStable(data, func(i, j int) bool { return bytes.Compare(data[i], data[j]) < 0 })
 	}
+	one8, one32 := strings.Contains(fl, "b"), strings.Contains(fl, "w")
+	// pairwise conditions judged through a set of what was seen (sequences of up to 65537 elements: a pairwise loop is
+	// quadratic): pairwise different elements / first bytes / first four bytes
+	seenElem, seen8, seen32 := map[string]bool{}, map[byte]bool{}, map[[4]byte]bool{}
 	for i := range data {
-		for j := i + 1; j < len(data); j++ {
-			if nd && bytes.Equal(data[i], data[j]) {
+		if nd {
+			if seenElem[string(data[i])] {
 				return false
 			}
-			if strings.Contains(fl, "b") && (len(data[i]) < 1 || len(data[j]) < 1 || data[i][0] == data[j][0]) {
+			seenElem[string(data[i])] = true
+		}
+		if one8 {
+			if len(data[i]) < 1 || seen8[data[i][0]] {
 				return false
 			}
-			if strings.Contains(fl, "w") && (len(data[i]) < 4 || len(data[j]) < 4 || !(data[i][0] != data[j][0] || data[i][1] != data[j][1] || data[i][2] != data[j][2] || data[i][3] != data[j][3])) {
+			seen8[data[i][0]] = true
+		}
+		if one32 {
+			if len(data[i]) < 4 {
 				return false
 			}
+			k := [4]byte{data[i][0], data[i][1], data[i][2], data[i][3]}
+			if seen32[k] {
+				return false
+			}
+			seen32[k] = true
 		}
 		if lex && i > 0 && bytes.Compare(data[i-1], data[i]) > 0 {
-			return false
-		}
-		if (strings.Contains(fl, "b") && len(data[i]) < 1) || (strings.Contains(fl, "w") && len(data[i]) < 4) {
 			return false
 		}
 	}
